@@ -6,6 +6,7 @@ From VQ Require Import Num Model.Vec Model.Core Proofs.CoreEMA Proofs.CoreMask G
 From VQ Require Import Model.Einops Glue.EinopsGlueBase Glue.EinopsGlueMask.
 From VQ Require Import Glue.LensGlue.
 From VQ Require Import Glue.Pin_fp_C09.
+From VQ Require Import Proofs.EinopsProofs Proofs.EinopsRepeat.
 Import ListNotations.
 Open Scope R_scope.
 
@@ -172,3 +173,13 @@ Theorem C09_tie_source_footprint :
   fp_C09.fp_C09 = pinned_fp_C09.
 Proof. exact (@Pin_fp_C09.pin_fp_C09). Qed.
 Print Assumptions C09_tie_source_footprint.
+
+(* implicit *)
+Theorem C09_mask_replication_is_broadcast :
+  forall (p : pattern) (e : env) (A : Type) (X : list nat -> A) (o1 o2 : list nat),
+       wf_repeat p = true ->
+       (forall n : string,
+        @In string n (names_of (lhs p)) -> lookup (sdecode e (rhs p) o1) n = lookup (sdecode e (rhs p) o2) n) ->
+       @rearr A p e X o1 = @rearr A p e X o2.
+Proof. exact (@EinopsRepeat.repeat_broadcasts). Qed.
+Print Assumptions C09_mask_replication_is_broadcast.
